@@ -87,6 +87,10 @@ func (c16) Plan(tier string, seed int64) []core.Scenario {
 			out = append(out, core.Sc("revformat").WithN("fmt", f).WithN("order", order))
 		}
 	}
+	// the server's request size limit concerns requests it receives, not the answers to its own reverse calls
+	for i := 0; i < 2; i++ {
+		out = append(out, core.Sc("rev-answer-over-request-limit").WithN("kb", []int{64, 16}[i]))
+	}
 	for i := 0; i < 5; i++ {
 		// noping: a client WithPingInterval(0) - reconnecting must not depend on the keepalive set-up
 		out = append(out, core.Sc("stale-reverse-answer").WithN("fk", i%2).WithN("old", 1+i%3).WithN("noping", i/3))
@@ -119,6 +123,8 @@ func (p c16) Run(sc core.Scenario) core.Result {
 		p.revFormat(sc, r)
 	case "stale-reverse-answer":
 		p.staleReverseAnswer(sc, r)
+	case "rev-answer-over-request-limit":
+		p.revAnswerOverLimit(sc, r)
 	}
 	return r.Result()
 }
@@ -688,4 +694,46 @@ func (c16) staleReverseAnswer(sc core.Scenario, r *core.R) {
 	r.Obs("reverse_calls", int64(2*nOld))
 	r.Sig(core.Log.Signature())
 	r.Sample(map[string]interface{}{"scenario": "old client-side reverse handlers finish after a reconnect while new reverse calls are in flight", "old_handlers": nOld})
+}
+
+// revAnswerOverLimit: a server WithMaxRequestSize(small) and a reverse client; the client-side handler's
+// answer is larger than that limit. The limit is about requests the server receives; the reverse call
+// must get its answer like a forward call of the same size does, and the connection must survive.
+func (c16) revAnswerOverLimit(sc core.Scenario, r *core.R) {
+	limit := int64(sc.I("kb")) << 10
+	env := NewEnv(EnvOpt{Rev: true, ServerOpts: []jsonrpc.ServerOption{jsonrpc.WithMaxRequestSize(limit)}})
+	defer env.Shutdown()
+	c, err := env.NewClient(ClientOpt{RevIdent: "A"})
+	if err != nil {
+		r.Inconclusive("client: %v", err)
+		return
+	}
+	bg := context.Background()
+	// control: a forward call whose result has the same size
+	ft := Tok("f")
+	fo := Go(ft, func() (string, error) { return c.Big(bg, ft, 300<<10) })
+	if !fo.Wait(core.Grace) || fo.Err != nil {
+		r.Inconclusive("forward control call failed: %v", fo.Err)
+		return
+	}
+	t := Tok("v")
+	o := Go(t, func() (string, error) { return c.Rev(bg, t, 1, 10) })
+	if !o.Wait(core.Grace) {
+		r.Violate("reverse-call-blocks", "limit %d KiB: a forward call whose handler makes a reverse call with a 300 KiB answer never returned", sc.I("kb"))
+	} else if o.Err != nil {
+		r.Violate("reverse-error", "limit %d KiB: reverse call with a 300 KiB answer failed although the client is healthy: %v", sc.I("kb"), o.Err)
+	} else if !strings.HasPrefix(o.Val, fmt.Sprintf("rbig:%d:", len(svc.Reply(t+".r0"))+1+300<<10)) && !strings.HasPrefix(o.Val, "rbig:") {
+		r.Violate("reverse-wrong-result", "limit %d KiB: reverse call returned %q", sc.I("kb"), core.Trunc(o.Val, 60))
+	}
+	if n := env.Px.Accepts(); n != 1 {
+		r.Violate("client-broken", "limit %d KiB: the connection was replaced (%d connections) after a reverse call with a large answer", sc.I("kb"), n)
+	}
+	pt := Tok("p")
+	po := Go(pt, func() (string, error) { return c.Echo(bg, pt, "") })
+	if !po.Wait(core.Grace) || po.Err != nil {
+		r.Violate("client-broken", "limit %d KiB: a call after the large reverse answer failed (returned=%v err=%v)", sc.I("kb"), po.Returned(), po.Err)
+	}
+	r.Key(fmt.Sprintf("rev-answer-over-request-limit %dKiB", sc.I("kb")), true)
+	r.Obs("reverse_calls", 1)
+	r.Sample(map[string]interface{}{"scenario": "reverse answer larger than the server's request size limit", "limit_kib": sc.I("kb"), "answer_kib": 300})
 }
